@@ -48,7 +48,7 @@ type Worker struct {
 	funcs        map[*ssa.Function]bool
 	stubsHit     map[string]bool
 	cats         []catInfo
-	accQ, accSat, accUnsat, accUnknown int
+	accQ, accSat, accUnsat, accUnknown, accRetried int
 	accElapsed   time.Duration
 	recycles     int
 }
@@ -60,7 +60,8 @@ func (w *Worker) foldSolverStats() {
 	w.accUnsat += s.unsat
 	w.accUnknown += s.unknown
 	w.accElapsed += s.elapsed
-	s.queries, s.sat, s.unsat, s.unknown, s.elapsed = 0, 0, 0, 0, 0
+	w.accRetried += s.retried
+	s.queries, s.sat, s.unsat, s.unknown, s.elapsed, s.retried = 0, 0, 0, 0, 0, 0
 }
 
 // recycle replaces the term context and the solver process by fresh ones. Definitions and the
@@ -97,10 +98,10 @@ func (w *Worker) noteCat(t, a, b *Term) {
 	}
 	for _, c := range w.cats {
 		if c.a == a && c.b != b {
-			w.tc.axioms = append(w.tc.axioms, fmt.Sprintf("(assert (=> (= (strcat %s %s) (strcat %s %s)) (= %s %s)))", a.name, b.name, c.a.name, c.b.name, b.name, c.b.name))
+			w.tc.addAxiom(fmt.Sprintf("(assert (=> (= (strcat %s %s) (strcat %s %s)) (= %s %s)))", a.name, b.name, c.a.name, c.b.name, b.name, c.b.name), a, b, c.a, c.b)
 		}
 		if c.b == b && c.a != a {
-			w.tc.axioms = append(w.tc.axioms, fmt.Sprintf("(assert (=> (= (strcat %s %s) (strcat %s %s)) (= %s %s)))", a.name, b.name, c.a.name, c.b.name, a.name, c.a.name))
+			w.tc.addAxiom(fmt.Sprintf("(assert (=> (= (strcat %s %s) (strcat %s %s)) (= %s %s)))", a.name, b.name, c.a.name, c.b.name, a.name, c.a.name), a, b, c.a, c.b)
 		}
 	}
 	w.cats = append(w.cats, catInfo{t, a, b})
@@ -133,7 +134,7 @@ type Driver struct {
 	// aggregated results
 	states, transitions int64
 	asserts, assertsSym int64
-	queries, qSat, qUnsat, qUnknown int
+	queries, qSat, qUnsat, qUnknown, qRetried int
 	solverTime time.Duration
 	violations []*Violation
 	inconclusive []string
@@ -439,7 +440,7 @@ func (d *Driver) writeEvidence(workers []*Worker, wall time.Duration, verdict st
 		"stubs":                         keysOf(stubs),
 		"cover_labels_reached":          sortedKeys(d.covers),
 		"solver":                        d.solverName,
-		"solver_queries":                map[string]int{"total": d.queries, "sat": d.qSat, "unsat": d.qUnsat, "unknown": d.qUnknown},
+		"solver_queries":                map[string]int{"total": d.queries, "sat": d.qSat, "unsat": d.qUnsat, "unknown": d.qUnknown, "decided_by_fresh_solver_retry": d.qRetried},
 		"solver_time_s":                 d.solverTime.Seconds(),
 		"assertions_checked":            d.asserts,
 		"assertions_symbolic":           d.assertsSym,
